@@ -14,6 +14,7 @@ type gvar struct {
 	ptrParam bool   // *Element parameter (may alias another one)
 	global   bool   // package-level constant Element
 	depth    int
+	seq      int // declaration order
 }
 
 func (v *gvar) isLimbs() bool { return v.typ == "elem" || v.typ == "arr" }
@@ -36,11 +37,12 @@ func (v *gvar) coqNames() []string {
 type vstate struct {
 	whole bool   // value available as the Coq variable <name>
 	bound []bool // limb j available as the Coq variable <name>j
-	init  []bool // pointer parameter: limb j may still hold the caller's value
+	init  []bool // limb j may still hold the value it had at function / fragment entry
+	sinit bool   // scalar: same
 }
 
 func (s *vstate) clone() *vstate {
-	return &vstate{whole: s.whole, bound: append([]bool(nil), s.bound...), init: append([]bool(nil), s.init...)}
+	return &vstate{whole: s.whole, sinit: s.sinit, bound: append([]bool(nil), s.bound...), init: append([]bool(nil), s.init...)}
 }
 
 type env struct {
@@ -143,6 +145,8 @@ func (ft *ftrans) declare(e *env, at ast.Node, v *gvar) {
 		}
 	}
 	v.depth = len(e.scopes)
+	ft.nseq++
+	v.seq = ft.nseq
 	e.scopes[len(e.scopes)-1][v.name] = v
 	s := &vstate{}
 	if v.isLimbs() {
